@@ -14,6 +14,7 @@ let dump (h : heap) =
     (String.concat "" (List.map (fun n -> " " ^ str_node n) ns))
 
 let do_sort algo mode n keys =
+  let alloc = mode <> "fail" in
   let kf = mk_kf (Array.of_list keys) in
   let a = iota (nat_of_int n) in
   if mode = "nodiff" then print_endline "nodiff"
@@ -22,8 +23,8 @@ let do_sort algo mode n keys =
     match algo with
     | "insertion" -> pr true (insertion_sort kf a)
     | "shell" -> (match shell_sort kf a with Some l -> pr true l | None -> print_endline "FUEL")
-    | "heap" -> (match heap_sort kf true a with Some (l, ok) -> pr ok l | None -> print_endline "FUEL")
-    | "merge" -> (match merge_sort kf true a with Some (l, ok) -> pr ok l | None -> print_endline "FUEL")
+    | "heap" -> (match heap_sort kf alloc a with Some (l, ok) -> pr ok l | None -> print_endline "FUEL")
+    | "merge" -> (match merge_sort kf alloc a with Some (l, ok) -> pr ok l | None -> print_endline "FUEL")
     | "quick" -> (match quick_sort kf a with Some l -> pr true l | None -> print_endline "FUEL-OR-OOB")
     | _ -> print_endline "?"
   end
@@ -36,6 +37,7 @@ let handle (lines : string list) : unit =
     match words l with
     | "sorts" :: _ -> ()
     | "sort" :: algo :: mode :: n :: keys -> do_sort algo mode (int_of_string n) (ints keys)
+    | "adv" :: _ -> print_endline "?"
     | "heap" :: cap :: nk :: keys ->
       nkeys := int_of_string nk;
       kf := mk_kf (Array.of_list (0 :: ints keys));
@@ -47,14 +49,20 @@ let handle (lines : string list) : unit =
       (match !st with
        | None -> print_endline "noheap"
        | Some h ->
+         let alloc = not (List.mem "F" args) in
+         let args = List.filter (fun w -> w <> "F") args in
          let a = match args with x :: _ -> int_of_string x | [] -> 0 in
          let b = match args with _ :: y :: _ -> int_of_string y | _ -> 0 in
          (match op with
           | "ins" ->
             if a < 1 || a > !nkeys || b < 0 || b >= 4096 then print_endline "?" else
-            (match heap_insert !kf true h (nat_of_int a) (nat_of_int b) with
+            (match heap_insert !kf alloc h (nat_of_int a) (nat_of_int b) with
              | None -> print_endline "FUEL"
              | Some (h', ok) -> st := Some h'; Printf.printf "ins %d\n" (if ok then 1 else 0); dump h')
+          | "ens" ->
+            if a < 0 then print_endline "?" else
+            let (h', ok) = heap_ensure_capacity alloc h (nat_of_int a) in
+            st := Some h'; Printf.printf "ens %d\n" (if ok then 1 else 0); dump h'
           | "ext" ->
             (match heap_extract !kf h with
              | None -> print_endline "FUEL"
